@@ -66,7 +66,7 @@ def dict_key_sites(fn: Func, dname: str) -> List[Tuple[ast.AST, ast.AST]]:
     return out
 
 
-LATER_RULES = " Later rules: (R18.7) module is absolute only at level 0; (R18.8) __import__('a.b') returns a; (R18.9) import a.b is used whenever a is; (R18.10) = C05 R5.5 for the tracing module; (R18.11) duplicates = same module, name and statement list; (R18.12) imports under try are never moved; (R18.15) a star import is removed as unused only when its export list can be determined, by a predicate that gives up wherever trace_origin does; (R18.16) import statements are reordered only after a test on the names they bind (known finding)."
+LATER_RULES = " Later rules: (R18.7) module is absolute only at level 0; (R18.8) __import__('a.b') returns a; (R18.9) import a.b is used whenever a is; (R18.10) = C05 R5.5 for the tracing module; (R18.11) duplicates = same module, name and statement list; (R18.12) imports under try are never moved; (R18.15) a star import is removed as unused only when its export list can be determined, by a predicate that gives up wherever trace_origin does; (R18.16) import statements are reordered only after a test on the names they bind (known finding); (R18.17) imports inserted at module level replace module-level imports only."
 
 
 def check(prog: Program, tier: str) -> Result:
@@ -171,13 +171,14 @@ def check(prog: Program, tier: str) -> Result:
     _r18_13(prog, res)
     _r18_15(prog, res)
     _r18_16(prog, res)
+    _r18_17(prog, res)
     # R18.10: where a module comes from is a fact about the disk and sys.path NOW
     from . import c05 as _c05
     anchors = [f.key for f in prog.funcs.values() if f.mod.name == "tracing"]
     _c05.adopt_memo_rule(prog, res, "R18.10", anchors,
                          "import normalisation must hold for ANY layout of the imported packages: a memoised lookup answers for the layout of an earlier call "
                          "(another working directory, an edited or moved module), so star-imports are expanded to names the module no longer exports")
-    res.floors.update({"R18.1": 6, "R18.2": 2, "R18.4": 1, "R18.5": 1, "R18.10": 3, "R18.11": 2, "R18.12": 1, "R18.13": 3, "R18.14": 1, "R18.15": 3, "R18.16": 1})
+    res.floors.update({"R18.1": 6, "R18.2": 2, "R18.4": 1, "R18.5": 1, "R18.10": 3, "R18.11": 2, "R18.12": 1, "R18.13": 3, "R18.14": 1, "R18.15": 3, "R18.16": 1, "R18.17": 2})
     res.analysed["importfrom_constructions"] = n
     return res
 
@@ -379,6 +380,84 @@ def _r18_16(prog: Program, res: Result) -> None:
                    "only after a test on the names the statements bind" if ok else
                    "the statements of an import block are sorted whatever they bind: two imports of the same name (`from a import x` / `from b import x`) "
                    "or a star import and another import swap places, and the name is bound to the other object")
+
+
+
+# ------------------------------------------------------------------------------------------------ R18.17
+def _module_level_source(e: ast.AST, fn: Func, depth: int = 0) -> Optional[bool]:
+    """Does the iterable `e` range over statements of the MODULE body only?  True / False / None (cannot tell)."""
+    if isinstance(e, ast.Name) and depth < 3:
+        defs = [v for _st, v in assignments(fn, e.id) if v is not None]
+        if len(defs) == 1:
+            return _module_level_source(defs[0], fn, depth + 1)
+        return None
+    if isinstance(e, ast.Attribute) and e.attr == "body" and isinstance(e.value, ast.Name):
+        return True
+    if isinstance(e, ast.Call):
+        name = norm(e.func)
+        if name.endswith(("walk", "walk_wildcard", "iter_bodies_recursive")) or name == "ast.walk":
+            return False              # every scope of the tree
+        if name.endswith(("filter_nodes", "filter", "sorted", "list", "tuple", "reversed", "iter_module_scope_statements")) and e.args:
+            if name.endswith("iter_module_scope_statements"):
+                return True
+            return _module_level_source(e.args[-1] if name.endswith("filter") else e.args[0], fn, depth)
+    if isinstance(e, (ast.GeneratorExp, ast.ListComp)):
+        return _module_level_source(e.generators[0].iter, fn, depth)
+    return None
+
+
+def _r18_17(prog: Program, res: Result) -> None:
+    """A redirected import is INSERTED at module level (a statement built with a `lineno` and yielded without a node it
+    replaces).  An import inside a function binds a local name there - moving its binding to module scope lets it be
+    shadowed by (or shadow) another module-level binding of the name.  Where a function inserts import statements at a
+    line and removes aliases from the statements of a loop, that loop and the line both range over statements of the
+    module body, not over every scope of the tree."""
+    n = 0
+    for fn in prog.funcs.values():
+        if fn.mod.name not in ("tracing",):
+            continue
+        inserts = []
+        for y in walk_own(fn.node):
+            if isinstance(y, ast.Yield) and isinstance(y.value, ast.Tuple) and len(y.value.elts) >= 2 and isinstance(y.value.elts[0], ast.Constant) \
+                    and y.value.elts[0].value is None:
+                new = y.value.elts[1]
+                if isinstance(new, ast.Name):
+                    d = [v for _st, v in assignments(fn, new.id) if v is not None]
+                    new = d[0] if d else new
+                if isinstance(new, ast.Call) and norm(new.func) in ("ast.Import", "ast.ImportFrom"):
+                    inserts.append((y, new))
+        if not inserts:
+            continue
+        # where the insertion goes
+        for y, new in inserts:
+            ln = next((k.value for k in new.keywords if k.arg == "lineno"), None)
+            if ln is None:
+                continue
+            n += 1
+            src = ln
+            verdict = None
+            if isinstance(ln, ast.Name):
+                d = [v for _st, v in assignments(fn, ln.id) if v is not None]
+                for v in d:
+                    for g in ast.walk(v):
+                        if isinstance(g, (ast.GeneratorExp, ast.ListComp)):
+                            verdict = _module_level_source(g.generators[0].iter, fn)
+                            src = g.generators[0].iter
+            res.decide(verdict is True, "R18.17", fn.loc(y), fn.fq, f"{short(src, 60)} # the line at which an import is inserted",
+                       "a line of a module-level import" if verdict is True else
+                       "the insertion line is taken from the imports of EVERY scope: with a function-level import first in the file the redirected import lands inside "
+                       "or above that function")
+        # which imports lose aliases
+        loops = [l for l in walk_own(fn.node) if isinstance(l, ast.For) and any(isinstance(y, ast.Yield) and isinstance(y.value, ast.Tuple) and y.value.elts
+                 and norm(y.value.elts[0]) == norm(l.target) for y in walk_body(l.body))]
+        for l in loops:
+            n += 1
+            verdict = _module_level_source(l.iter, fn)
+            res.decide(verdict is True, "R18.17", fn.loc(l), fn.fq, f"{short(l.iter, 60)} # the imports whose names are redirected",
+                       "module-level imports only" if verdict is True else
+                       "imports of every scope are redirected, but the redirected import is inserted at module level: a function-local `from b import x` becomes a "
+                       "module-level `from a import x` that another module-level import of x shadows (or that shadows it)")
+    res.analysed["import_insertions"] = n
 
 
 
@@ -833,6 +912,9 @@ def _r18_6(prog: Program, res: Result) -> None:
 from ..selftest import Variant  # noqa: E402
 
 VARIANTS = [
+    Variant("function-level-imports-redirected-again", "FIRE", "tracing", "    for node in core.filter_nodes(root.body, ast.ImportFrom):\n        if node.level:", "    for node in core.walk(root, ast.ImportFrom):\n        if node.level:", "R18.17"),
+    Variant("insertion-line-from-any-scope", "FIRE", "tracing", "        (node.lineno for node in core.filter_nodes(root.body, (ast.ImportFrom, ast.Import))),", "        (node.lineno for node in core.walk(root, (ast.ImportFrom, ast.Import))),", "R18.17"),
+    Variant("module-level-imports-by-isinstance", "SILENT", "tracing", "    for node in core.filter_nodes(root.body, ast.ImportFrom):\n        if node.level:", "    for node in [statement for statement in root.body if isinstance(statement, ast.ImportFrom)]:\n        if node.level:", "R18.17"),
     Variant("same-name-imports-keep-their-order", "REPAIRED", "fixes", "        sorted_nodes = sorted(nodes, key=_import_group_key)\n", "        bound_objects = collections.defaultdict(set)\n        for node in nodes:\n            for alias in node.names:\n                origin = (getattr(node, \"level\", None), getattr(node, \"module\", None), alias.name)\n                bound_objects[(alias.asname or alias.name).split(\".\")[0]].add(origin)\n\n        if \"*\" in bound_objects or any(len(origins) > 1 for origins in bound_objects.values()):\n            continue\n\n        sorted_nodes = sorted(nodes, key=_import_group_key)\n", "R18.16"),
     Variant("opaque-star-imports-removed-again", "FIRE", "tracing", "        if _is_opaque_star_import(node):\n            continue  # No name was traced to it because what it binds is not known\n\n", "", "R18.15"),
     Variant("predicate-forgets-relative-imports", "FIRE", "tracing", "    if node.level or node.module is None:\n        return True\n\n    origin = _trace_module_source_file(node.module)\n    if origin in", "    if node.module is None:\n        return True\n\n    origin = _trace_module_source_file(node.module)\n    if origin in", "R18.15"),
@@ -856,11 +938,11 @@ VARIANTS = [
     Variant("dotted-import-unused-when-not-spelled-out", "FIRE", "fixes",
             "    return {name for name in imports - names - {\"*\"} if name.split(\".\")[0] not in names}\n", "    return imports - names - {\"*\"}\n", "R18.9"),
     Variant("reimported-names-ignore-level", "FIRE", "tracing",
-            "    for node in core.walk(root, ast.ImportFrom):\n        if node.level:\n            continue  # A relative import, node.module is not the name of a top level module\n\n",
-            "    for node in core.walk(root, ast.ImportFrom):\n", "R18.7"),
+            "    for node in core.filter_nodes(root.body, ast.ImportFrom):\n        if node.level:\n            continue  # A relative import, node.module is not the name of a top level module\n\n",
+            "    for node in core.filter_nodes(root.body, ast.ImportFrom):\n", "R18.7"),
     Variant("level-tested-explicitly-against-zero", "SILENT", "tracing",
-            "    for node in core.walk(root, ast.ImportFrom):\n        if node.level:\n            continue  # A relative import, node.module is not the name of a top level module\n\n",
-            "    for node in core.walk(root, ast.ImportFrom):\n        if node.level != 0:\n            continue\n\n"),
+            "    for node in core.filter_nodes(root.body, ast.ImportFrom):\n        if node.level:\n            continue  # A relative import, node.module is not the name of a top level module\n\n",
+            "    for node in core.filter_nodes(root.body, ast.ImportFrom):\n        if node.level != 0:\n            continue\n\n"),
     Variant("dunder-import-of-dotted-module-names", "FIRE", "tracing",
             "                if origin in {\"frozen\", \"built-in\"}:\n                    try:\n                        module = importlib.import_module(node.module)  # __import__('a.b') would return a",
             "                if origin in {\"frozen\", \"built-in\"}:\n                    try:\n                        module = __import__(node.module)", "R18.8"),
